@@ -4,6 +4,7 @@ well-formedness hypothesis of the theorem.
 -/
 import Paroxy.Spec.FlatAst
 import Paroxy.Model.NodeFeature
+import Paroxy.Model.WholeSpan
 namespace Paroxy.Flat
 
 /-- The positioned nodes among the entries of an enumeration: `(type, line number)`. -/
@@ -76,9 +77,79 @@ instance (es : List Entry) : Decidable (PreorderMonotone es) := by
 def GoodSpan (m : Str × List Str) : Prop :=
   ∃ n a, m.2 = [posText n a] ∨ ∃ n' a', m.2 = [posText n a, posText n' a'] ∧ n ≤ n'
 
+/-- Further local clauses for the `whole_span` theorems: the path shown by a positioned node is not empty
+(it is below a list of the root); a scalar line offers no position to the `whole_span` pattern (true of
+every escaped value whose field name does not end with `_pos`). -/
+def Entry.ok3 (e : Entry) : Bool :=
+  e.ok2 &&
+    match e.item with
+    | .node _ _ _ (some _) => !(posPath e.addr).isEmpty
+    | .node _ _ _ none => true
+    | .list _ _ => true
+    | .scalar r =>
+      (firstWholePos? (scalarLine (encNames e.names) r)).isNone &&
+        (lastWholePos? (scalarLine (encNames e.names) r)).isNone
+
+/-- Line and address of a positioned entry. -/
+def Entry.posOf (e : Entry) : Option (Nat × List Nat) :=
+  match e.item with
+  | .node _ _ _ (some n) => some (n, e.addr)
+  | _ => none
+
+/-- The line of the first positioned entry, and the entries that follow it. -/
+def firstPosSplit : List Entry → Option (Nat × List Entry)
+  | [] => none
+  | e :: es =>
+    match e.item with
+    | .node _ _ _ (some n) => some (n, es)
+    | _ => firstPosSplit es
+
+/-- Line and address of the last positioned entry of an enumeration. -/
+def lastPosOfEntries (es : List Entry) : Option (Nat × List Nat) :=
+  (es.filterMap fun e => match e.item with
+    | .node _ _ _ (some n) => some (n, e.addr)
+    | _ => none).getLast?
+
+def fieldNameOk (n : Str) : Bool := !n.contains '=' && !n.contains '/' && !n.isEmpty
+
+mutual
+/-- Field names: no `=`, no `/`, not empty, pairwise distinct among siblings. -/
+def namesOkTree : Val → Bool
+  | .node _ _ _ _ fs => (fs.map (·.1)).all fieldNameOk && decide (fs.map (·.1)).Nodup && namesOkFields fs
+  | .list _ xs => namesOkItems xs
+  | .scalar _ _ => true
+def namesOkFields : List (Str × Val) → Bool
+  | [] => true
+  | (_, v) :: rest => namesOkTree v && namesOkFields rest
+def namesOkItems : List Val → Bool
+  | [] => true
+  | v :: rest => namesOkTree v && namesOkItems rest
+end
+
+mutual
+/-- **What the span of a `node` occurrence needs**: the line of a positioned node is not after the line
+of its last positioned strict descendant in dump order (the second capture of the pattern). -/
+def lastDescMono (names : List Str) (addr : List Nat) : Val → Bool
+  | .node _ _ _ ln fs =>
+    (match ln, lastPosOfEntries (entriesFields names addr 0 fs) with
+      | some n, some (n', _) => decide (n ≤ n')
+      | _, _ => true) && lastDescMonoFields names addr 0 fs
+  | .list _ xs => lastDescMonoItems names addr 1 xs
+  | .scalar _ _ => true
+def lastDescMonoFields (names : List Str) (addr : List Nat) (i : Nat) : List (Str × Val) → Bool
+  | [] => true
+  | (n, v) :: rest => lastDescMono (names ++ [n]) (addr ++ [i]) v && lastDescMonoFields names addr (i + 1) rest
+def lastDescMonoItems (names : List Str) (addr : List Nat) (i : Nat) : List Val → Bool
+  | [] => true
+  | v :: rest => lastDescMono (names ++ [dec i]) (addr ++ [i]) v && lastDescMonoItems names addr (i + 1) rest
+end
+
 /-- `Tree.WF` for the span theorems of C02 (Bool-valued, evaluated by the driver on every tree). -/
 def treeOk2 (t : Val) : Bool :=
   (entries [] [] t).all fun e => e.ok2 && e.typed (posTypes t).contains
+
+/-- `Tree.WF` for the `whole_span` theorems of C02. -/
+def treeOk3 (t : Val) : Bool := (entries [] [] t).all Entry.ok3
 
 /-! ## Data flow of tagging (for `C01_same_text`) -/
 
